@@ -15,7 +15,6 @@ def register(w):
             "setname", "gethost", "sethost", "getport", "setport", "getmimetype", "getencodedmimetype",
             "setmimetype", "getsize", "getencoding", "getlanguage", "getctime", "getmtime", "getnum", "setnum",
             "getgopherpsupport", "setgopherpsupport", "getea", "geteadict", "setea", "__init__")],
-        "pygopherd/gopherentry.py::getinfoentry",
         "pygopherd/handlers/base.py::BaseHandler.getselector",
         "pygopherd/protocols/base.py::BaseGopherProtocol.log",
         "pygopherd/handlers/base.py::BaseHandler.gethandler",
